@@ -760,6 +760,21 @@ func ruleHNSWOrder(r *Run, p string) {
 		pM := pruneBoundParam(fn)
 		allInstrs(fn, func(in ssa.Instruction) {
 			if mk, ok2 := in.(*ssa.MakeSlice); ok2 && tstr(mk.Type(), nil) == "[]uint32" {
+				// make(len(cands[:min(M, len(cands))])): the length of a prefix is its bound
+				if lc, isLen := mk.Len.(*ssa.Call); isLen && len(lc.Call.Args) == 1 {
+					if bi, isB := lc.Call.Value.(*ssa.Builtin); isB && bi.Name() == "len" {
+						if sl, isSl := lc.Call.Args[0].(*ssa.Slice); isSl && sl.Low == nil && sl.High != nil {
+							if hc, isCall := sl.High.(*ssa.Call); isCall {
+								if hb, isHB := hc.Call.Value.(*ssa.Builtin); isHB && hb.Name() == "min" && len(hc.Call.Args) == 2 {
+									s0, s1 := c.S(hc.Call.Args[0]), c.S(hc.Call.Args[1])
+									if (s0 == pM && strings.HasPrefix(s1, "len(")) || (s1 == pM && strings.HasPrefix(s0, "len(")) {
+										ok = true
+									}
+								}
+							}
+						}
+					}
+				}
 				if call, isCall := mk.Len.(*ssa.Call); isCall {
 					if b, isB := call.Call.Value.(*ssa.Builtin); isB && b.Name() == "min" && len(call.Call.Args) == 2 {
 						s0, s1 := c.S(call.Call.Args[0]), c.S(call.Call.Args[1])
